@@ -96,7 +96,7 @@ func startTagLines(src, tag string, occurrence int) (int, int) {
 }
 
 func runC17(res *Result, tier string, seed int64, replay string) {
-	res.Rule = "(1) EXHAUSTIVE matrix: every body component in a legal context × every attribute name from the union of all known names + invented ones (bogus, data-x, aria-y, class, css-class, mj-class, empty-looking names): error reported ⇔ the Spec (JSON table + always-accepted names) rejects, exactly one detail for the offending (tag, attribute), nothing else; HTML equal to the HTML of the same document without the attribute when the attribute is invalid. (1b) the same for the head elements, each written self-closing, empty, blank and with content (validation must not depend on the element having content). (2) seeded grammar documents with 1–4 invalid attributes injected at random elements, multi-line start tags, three layouts (one element per line, the whole document on one line, the first elements on the line of the root), void HTML tags inside mj-text written over several lines, documents preceded by comments and blank lines, also mixed with material that is kept (XML declaration, doctype, byte-order mark) in every order: every reported line must lie within the lines of that element's start tag in the ORIGINAL input; details = injected set. end tags written over several lines; (3) line lookup: real lineLookup (verif export) vs 1 + count of newlines, offsets queried in random order; (4) the three textual pre-passes and their composition byte for byte against the Lean Models (driver `strip` `amp` `ent` `wrap` `pre`) on the documents of (2) and on texts made of the pieces wrapMJTextContent and its void-tag pattern look at. Non-trivial = cell or document with an offending attribute; distinct by cell / source"
+	res.Rule = "(1) EXHAUSTIVE matrix: every body component in a legal context × every attribute name from the union of all known names + invented ones (bogus, data-x, aria-y, class, css-class, mj-class, empty-looking names): error reported ⇔ the Spec (JSON table + always-accepted names) rejects, exactly one detail for the offending (tag, attribute), nothing else; HTML equal to the HTML of the same document without the attribute when the attribute is invalid. (1b) the same for the head elements, each written self-closing, empty, blank and with content (validation must not depend on the element having content). (1c) the same invalid attribute on several elements of one tag on one line: one detail per element. (2) seeded grammar documents with 1–4 invalid attributes injected at random elements, multi-line start tags, three layouts (one element per line, the whole document on one line, the first elements on the line of the root), void HTML tags inside mj-text written over several lines, documents preceded by comments and blank lines, also mixed with material that is kept (XML declaration, doctype, byte-order mark) in every order: every reported line must lie within the lines of that element's start tag in the ORIGINAL input; details = injected set. end tags written over several lines; (3) line lookup: real lineLookup (verif export) vs 1 + count of newlines, offsets queried in random order; (4) the three textual pre-passes and their composition byte for byte against the Lean Models (driver `strip` `amp` `ent` `wrap` `pre`) on the documents of (2) and on texts made of the pieces wrapMJTextContent and its void-tag pattern look at. Non-trivial = cell or document with an offending attribute; distinct by cell / source"
 	// ---- (1) matrix
 	names := map[string]bool{}
 	for _, t := range bodyTags {
@@ -229,6 +229,30 @@ func runC17(res *Result, tier string, seed int64, replay string) {
 						res.Violate(Violation{Sig: sig + "|head/" + t + "/" + a + "/" + sh, Kind: "cell", What: what, Input: map[string]string{"source": src}})
 					}
 				}
+			}
+		}
+	}
+	// ---- (1c) the same attribute on several elements of the same tag standing on ONE line (and on two lines): one detail per
+	// offending element — details that look alike are still details of different elements
+	if replay == "" {
+		for li, sep := range []string{"", "\n"} {
+			src := `<mjml><mj-body><mj-section><mj-column>` + sep + `<mj-text bogus="1">a</mj-text><mj-text bogus="1">b</mj-text>` + sep + `<mj-text bogus="2">c</mj-text><mj-image src="i.png" bogus="1"/><mj-image src="j.png" bogus="1"/></mj-column></mj-section></mj-body></mjml>`
+			_, err := renderPlain(src)
+			ds, _ := detailsOf(err)
+			res.Case(fmt.Sprintf("same-line-same-attribute|%d", li), true)
+			nText, nImage := 0, 0
+			for _, d := range ds {
+				if d.tag == "mj-text" && d.attr == "bogus" {
+					nText++
+				}
+				if d.tag == "mj-image" && d.attr == "bogus" {
+					nImage++
+				}
+			}
+			if nText != 3 || nImage != 2 || len(ds) != 5 {
+				res.Violate(Violation{Sig: fmt.Sprintf("details-not-exact|same-attribute-on-several-elements|%d", li), Kind: "input",
+					What:  fmt.Sprintf("three mj-text and two mj-image elements carry the attribute bogus: %d + %d details reported (%d in all), want 3 + 2", nText, nImage, len(ds)),
+					Input: map[string]string{"source": src}})
 			}
 		}
 	}
